@@ -68,3 +68,11 @@ Print Assumptions C02_kernel_tie.
 Example C02_example :
   gp Zops (mk_default [1; 1] 1 false) [(1, 1); (2, 2)] [(1, 3)] = [(0, 3); (3, -6)].
 Proof. vm_compute. reflexivity. Qed.
+
+(* ---- the tie to today's source: codegen_product as regenerated from /repo/kingdon/codegen.py
+   (Gen/Kernels.v) IS the model function the theorems above speak about, for every coefficient type ---- *)
+From KV Require Import Gen.Kernels Bridge.Kernels.
+Theorem C02_product_kernel_is_todays_source : forall (R : Type) (O : ops R) sfun filt kout (x y : mv R),
+  gen_codegen_product O sfun filt kout x y = codegen_product O sfun filt kout x y.
+Proof. exact @br_codegen_product. Qed.
+Print Assumptions C02_product_kernel_is_todays_source.
